@@ -10,6 +10,14 @@ export CARGO_TARGET_DIR="$VERIF/target/harness"
 mkdir -p "$VERIF/target/logs" "$VERIF/evidence"
 python3 "$VERIF/gen/gen_registry.py" "$VERIF/harness" >/dev/null
 python3 "$VERIF/gen/gen_derive.py" "$VERIF/harness" >/dev/null
+# Background runs may work on their own snapshot of the repository (REPO_ROOT=$VP_RUN_REPO): point the
+# path dependencies there. The registered checks always use /repo itself.
+if [ -n "${REPO_ROOT:-}" ] && [ "$REPO_ROOT" != "/repo" ]; then
+  for f in "$VERIF"/harness/*/Cargo.toml "$VERIF"/harness_digest/Cargo.toml; do
+    sed -i "s#path = \"/repo\"#path = \"$REPO_ROOT\"#" "$f"
+  done
+  cp "$REPO_ROOT/Cargo.lock" "$VERIF/harness_digest/Cargo.lock" 2>/dev/null || true
+fi
 ( cd "$VERIF/harness" && cargo build --release --offline -p pscv 2>&1 | tail -3 )
 # warm the feature-matrix builds (C20) so that the first quick run is not dominated by them
 ( cd "$VERIF/harness_digest" && env -u RUSTFLAGS -u CARGO_TARGET_DIR cargo build --release --offline --no-default-features --features "std chain-error bit-vec bytes generic-array max-encoded-len derive" --target-dir "$VERIF/target/digest-default" 2>&1 | tail -1 ) || true
